@@ -396,6 +396,19 @@ func chainParity(c *core.Ctx) {
 		}
 		count++
 		loops := loopsIn(fd.Body)
+		if len(loops) == 0 {
+			// the loop lives in a shared helper: `return wrapEach(c.interceptors, next, Interceptor.M)`
+			if hdir, ok, why := chainWrapViaHelper(p, info, fd, field, m); ok {
+				ascending := hdir == dirAsc
+				c.Check(reversed == ascending, key, fd.Pos(),
+					"%s (through a shared helper): stored list reversed=%v, wrap loop %s => first declared interceptor is %s", m.Name(), reversed, hdir,
+					map[bool]string{true: "outermost", false: "INNERMOST"}[reversed == ascending])
+				continue
+			} else if why != "" {
+				c.Undecided(key, fd.Pos(), "no loop in %s and the helper form was not recognised: %s", core.FuncName(fd), why)
+				continue
+			}
+		}
 		if len(loops) != 1 {
 			c.Undecided(key, fd.Pos(), "expected exactly one loop, found %d", len(loops))
 			continue
@@ -1009,4 +1022,81 @@ func containsDecl(list []*ast.FuncDecl, fd *ast.FuncDecl) bool {
 		}
 	}
 	return false
+}
+
+// chainWrapViaHelper recognises `return H(c.<list>, next, Interceptor.M)` where the first-party helper H
+// runs `acc = f(elem, acc)` over its slice parameter in one loop and returns acc. It reports the loop's
+// direction.
+func chainWrapViaHelper(p *core.Program, info *types.Info, fd *ast.FuncDecl, field *types.Var, m *types.Func) (loopDir, bool, string) {
+	if len(fd.Body.List) != 1 {
+		return dirUnknown, false, "body is not a single return"
+	}
+	ret, ok := fd.Body.List[0].(*ast.ReturnStmt)
+	if !ok || len(ret.Results) != 1 {
+		return dirUnknown, false, "body is not a single return"
+	}
+	call, ok := astx.Unparen(ret.Results[0]).(*ast.CallExpr)
+	if !ok {
+		return dirUnknown, false, "the returned value is not a call"
+	}
+	hf := astx.CalleeFunc(info, call)
+	if hf == nil {
+		return dirUnknown, false, "callee not resolved"
+	}
+	if hf.Origin() != nil {
+		hf = hf.Origin()
+	}
+	hd := p.Decl(hf)
+	if hd == nil || p.PkgOf(hd) != p.Connect {
+		return dirUnknown, false, "callee is not a first-party function"
+	}
+	hsig := hf.Type().(*types.Signature)
+	if hsig.Params().Len() != len(call.Args) {
+		return dirUnknown, false, "argument count"
+	}
+	hloops := loopsIn(hd.Body)
+	if len(hloops) != 1 {
+		return dirUnknown, false, "the helper does not have exactly one loop"
+	}
+	hdir, hslice, hElem, hbody := loopOver(info, hloops[0])
+	if hdir == dirUnknown || hbody == nil || len(hbody.List) != 1 {
+		return dirUnknown, false, "the helper's loop shape is not recognised"
+	}
+	sliceParam := paramIndex(hf, astx.ObjOf(info, hslice))
+	if sliceParam < 0 {
+		return dirUnknown, false, "the helper does not loop over a parameter"
+	}
+	as, ok := hbody.List[0].(*ast.AssignStmt)
+	if !ok || as.Tok != token.ASSIGN || len(as.Lhs) != 1 || len(as.Rhs) != 1 {
+		return dirUnknown, false, "the helper's loop body is not `acc = f(elem, acc)`"
+	}
+	acc := astx.ObjOf(info, as.Lhs[0])
+	wc, ok := as.Rhs[0].(*ast.CallExpr)
+	if !ok || len(wc.Args) != 2 || !hElem(wc.Args[0]) || astx.ObjOf(info, wc.Args[1]) != acc || acc == nil {
+		return dirUnknown, false, "the helper's loop body is not `acc = f(elem, acc)`"
+	}
+	funcParam := paramIndex(hf, astx.ObjOf(info, wc.Fun))
+	accParam := paramIndex(hf, acc)
+	if funcParam < 0 || accParam < 0 {
+		return dirUnknown, false, "f and acc are not parameters of the helper"
+	}
+	for _, r := range astx.Returns(hd.Body) {
+		if len(r.Results) != 1 || astx.ObjOf(info, r.Results[0]) != acc {
+			return dirUnknown, false, "the helper does not return the accumulator"
+		}
+	}
+	// the call site
+	if astx.FieldOf(info, call.Args[sliceParam]) != field {
+		return dirUnknown, false, "the list handed to the helper is not the chain's own"
+	}
+	if len(fd.Type.Params.List) == 0 || len(fd.Type.Params.List[0].Names) == 0 || astx.ObjOf(info, call.Args[accParam]) != info.Defs[fd.Type.Params.List[0].Names[0]] {
+		return dirUnknown, false, "the function handed to the helper is not the method's argument"
+	}
+	// Interceptor.M as a method expression
+	if sel, ok := astx.Unparen(call.Args[funcParam]).(*ast.SelectorExpr); ok {
+		if tv, ok := info.Types[sel.X]; ok && tv.IsType() && sel.Sel.Name == m.Name() {
+			return hdir, true, ""
+		}
+	}
+	return dirUnknown, false, "the wrapping function handed to the helper is not Interceptor." + m.Name()
 }
